@@ -48,10 +48,10 @@ type execJob struct {
 }
 
 type execReq struct {
-	Dir   string
-	GCOff bool // see the comment at the top of the file
+	Dir      string
+	GCOff    bool // see the comment at the top of the file
 	WantDiff bool // also compute the reference in the child and describe the difference
-	Jobs  []execJob
+	Jobs     []execJob
 }
 
 type execHello struct {
@@ -60,14 +60,14 @@ type execHello struct {
 
 // execRes is the outcome of one (file, setting).
 type execRes struct {
-	Job, Set  int
-	Err       string // compile error ("" = compiled)
-	DumpErr   string // store could not be read back
-	Hash      string // canonical hash of the dump
-	Keys      int
-	Values    int
-	Diff      string // only when the request asks for it: dump vs sequential-codec reference, "" = equal
-	Panic     string
+	Job, Set int
+	Err      string // compile error ("" = compiled)
+	DumpErr  string // store could not be read back
+	Hash     string // canonical hash of the dump
+	Keys     int
+	Values   int
+	Diff     string // only when the request asks for it: dump vs sequential-codec reference, "" = equal
+	Panic    string
 }
 
 func dumpHash(d dnsfix.Dump) (string, int, int) {
@@ -427,4 +427,3 @@ func tail(s string, n int) string {
 	}
 	return s
 }
-
